@@ -1,6 +1,6 @@
 (* C07 -- whatever was evaluated before, a handle returns the value of its CURRENT method. *)
 From Coq Require Import List Bool.
-From V Require Import C07.Gen_Handles C07.Handles.
+From V Require Import C07.Model C07.Gen_Handles C07.Handles C07.Gen_PhaseHandle.
 Import ListNotations.
 
 Lemma handle_returns_current Tt V eqT (value : nat -> Tt -> V) ops : forall h m T v,
@@ -13,3 +13,7 @@ Proof.
     + eapply IH; eauto.
   - eapply IH; eauto.
 Qed.
+
+Lemma phase_labels_agree (l : label) :
+  PhaseTHandle_dispatch l = Some (canonical_phase l) /\ PhaseTPHandle_dispatch l = Some (canonical_phase l).
+Proof. destruct l; split; reflexivity. Qed.
